@@ -314,18 +314,20 @@ class Sym:
 
     __rmul__ = __mul__
 
-    def inverse(self) -> "Sym":
+    def inverse(self, note=True) -> "Sym":
+        """1/self.  note=False: a proof device of a contract (no definedness obligation)."""
         if not self.p:
             raise ZeroDivisionError("symbolic division by the zero polynomial")
         if len(self.p) == 1:
             (m, c), = self.p.items()
-            if m:
-                DENOMS.setdefault(self.key(), self)
+            if m and note:
+                _note_denominator(self)
             return Sym({tuple((a, -e) for a, e in m): 1 / c})
         # multi-term: primitive normalisation, then opaque inverse atom
         lead = self.key()[0][1]
         q = self if lead == 1 else self * Sym.const(1 / lead)
-        DENOMS.setdefault(q.key(), q)
+        if note:
+            _note_denominator(q)
         return Sym({((mk_atom("inv", (q.key(),)).id, 1),): 1 / lead})
 
     def __truediv__(self, o):
@@ -569,6 +571,17 @@ class Sym:
             else:
                 out.append(f"{c}*{body}")
         return " + ".join(out).replace("+ -", "- ")
+
+
+def _note_denominator(q: Sym):
+    """every non-constant denominator becomes a definedness obligation `q != 0` under the facts
+    known when the division happens (collected per path in ctx)."""
+    from . import ctx as _ctx
+
+    k = q.key()
+    d = _ctx.ST.denoms
+    if k not in d:
+        d[k] = (q, list(_ctx.ST.facts))
 
 
 def _trig(name, x: Sym) -> Sym:
